@@ -1015,7 +1015,7 @@ func Execute(spec *Spec) *Trace {
 							all = false
 							continue
 						}
-						if ip == 0 || tick-st.startTick < 2000 || time.Since(st.since) <= 3*time.Second {
+						if (ip == 0 && !(p == 0 && sk == 0 && dn > 0)) || tick-st.startTick < 2000 || time.Since(st.since) <= 3*time.Second {
 							all = false
 							continue
 						}
@@ -1124,13 +1124,18 @@ func Execute(spec *Spec) *Trace {
 				}
 				// bounded progress: every started task function has returned, nothing is parked, the scheduler idles with
 				// vertices in progress and its state has not changed for thousands of iterations and several seconds
-				if ip > 0 && stable >= 2000 && time.Since(stableSince) > 3*time.Second && atomic.LoadInt32(&r.live) == 0 {
+				// ... or every vertex is done and the scheduler still idles instead of returning
+				allDoneIdle := ip == 0 && p == 0 && sk == 0 && dn > 0
+				if (ip > 0 || allDoneIdle) && stable >= 2000 && time.Since(stableSince) > 3*time.Second && atomic.LoadInt32(&r.live) == 0 {
 					r.mu.Lock()
 					np := len(r.parked)
 					r.mu.Unlock()
 					if np == 0 {
 						if blocked, gdesc := taskGoroutinesBlocked(); blocked && atomic.LoadInt32(&r.live) == 0 {
 							tr.Stalled = fmt.Sprintf("no task function is executing, yet the scheduler has idled for %d iterations (%.1fs) with pending=%d inprogress=%d skip=%d done=%d; %s", stable, time.Since(stableSince).Seconds(), p, ip, sk, dn, gdesc)
+							if allDoneIdle {
+								tr.Stalled = "every vertex is done and Run does not return: " + tr.Stalled
+							}
 							abandon()
 							break CONTROL
 						}
